@@ -790,6 +790,13 @@ class Extractor {
         o.boolean("isref", V->getType()->isReferenceType());
         o.boolean("dependent", V->getDeclContext()->isDependentContext());
         o.raw("loc", locJson(V->getLocation()));
+        // initialiser that is (a conversion of) a direct call: name of the callee
+        if (const Expr *I = V->getAnyInitializer()) {
+            const Expr *E = I->IgnoreParenImpCasts();
+            if (auto *EWC = dyn_cast<ExprWithCleanups>(E)) E = EWC->getSubExpr()->IgnoreParenImpCasts();
+            if (auto *CE = dyn_cast<CallExpr>(E))
+                if (const FunctionDecl *Callee = CE->getDirectCallee()) o.str("initcallee", tnameOf(Callee));
+        }
         varJson.push_back(o.done());
     }
 
